@@ -58,6 +58,7 @@ func init() {
 	register("C17", "store", 1, simC17Store)
 	register("C06", "monitor", 2, simC06Monitor)
 	register("C06", "conversions", 1, simC06Conversions)
+	register("C06", "decoders", 1, simC17Store) // the record store as a source of decoded values (its own oracles muted)
 }
 
 func pickSim(prop string, index uint64) simEntry {
@@ -101,6 +102,9 @@ func runOne(prop string, se simEntry, tier string, src *tape.Source, st *Stats) 
 		if r := recover(); r != nil {
 			if vp, ok := r.(violationPanic); ok {
 				viol = vp.v
+				return
+			}
+			if _, ok := r.(mutedPanic); ok {
 				return
 			}
 			// a panic that escaped the simulation is a harness bug or an unexpected library panic:
